@@ -361,6 +361,47 @@ def solve_query(args):
     return res
 
 
+def solve_portfolio(args):
+    """one unresolved claim of one query: try several solver configurations on a fresh context each."""
+    qi, q, ci, timeout_ms, seed = args
+    name, claim, key = q['sels'][ci]
+    t0 = time.time()
+    configs = [('default/seed0', lambda: z3.Solver(), 0),
+               ('solve-eqs', lambda: z3.Then('simplify', 'solve-eqs', 'smt').solver(), 0),
+               ('default/seed7', lambda: z3.Solver(), 7),
+               ('qfnia', lambda: z3.SolverFor('QF_NIA'), 0),
+               ('default/seed13', lambda: z3.Solver(), 13)]
+    status, model, used = 'unknown', {}, None
+    for cname, mk, sd in configs:
+        try:
+            s = mk()
+            s.set('timeout', timeout_ms)
+            if sd:
+                s.set('random_seed', sd)
+            s.from_string(q['text'])
+            s.push()                 # incremental mode: a different (often faster) arithmetic pipeline
+            s.add(z3.Bool(name))
+            r = s.check()
+        except Exception:   # noqa
+            continue
+        if r == z3.unsat:
+            status, used = 'unsat', cname
+            break
+        if r == z3.sat:
+            status, used = 'sat', cname
+            mod = s.model()
+            byname = {d.name(): mod[d] for d in mod.decls()}
+            for label, (k, v) in q['mv'].items():
+                if k == 'const':
+                    model[label] = v
+                elif v in byname:
+                    model[label] = str(byname[v])
+                elif label in q.get('base', {}):
+                    model[label] = q['base'][label]
+            break
+    return {'qi': qi, 'ci': ci, 'status': status, 'model': model, 'config': used, 't': time.time() - t0}
+
+
 def cvc5_check(text, timeout_s=60):
     """re-decide a query text (all selectors true -> any claim refutable?) with cvc5. returns sat/unsat/unknown/error"""
     try:
@@ -461,8 +502,37 @@ def run_check(prop_id, modname, tier, seed, jobs=None, only=None):
                 out.append((k, q))
         return out
     rest = unresolved()
-    if rest and timeout > first_ms:
-        answers.update(run_pass(rest, timeout, seed + 1))
+    retried = 0
+    if rest:
+        # portfolio pass: every unresolved claim on its own, several configurations, fresh solver contexts
+        tasks2 = []
+        for k, q in rest:
+            a = answers.get(k)
+            if a is None or 'error' in a:
+                answers[k] = {'qi': k, 'claims': [{'claim': c, 'key': kk, 'status': 'unknown', 'model': {}} for _, c, kk in q.get('sels', [])], 't': 0.0}
+                a = answers[k]
+            for ci, c in enumerate(a['claims']):
+                if c['status'] == 'unknown' and 'text' in q:
+                    tasks2.append((k, q, ci, max(timeout, 30000), seed))
+        retried = len(tasks2)
+        if tasks2:
+            if njobs == 1:
+                outs2 = [solve_portfolio(t) for t in tasks2]
+            else:
+                with ctxm.Pool(min(njobs, len(tasks2))) as pool:
+                    outs2 = list(pool.imap_unordered(solve_portfolio, tasks2, chunksize=1))
+            for o in outs2:
+                c = answers[o['qi']]['claims'][o['ci']]
+                c['status'] = o['status']
+                c['model'] = o['model']
+                c['config'] = o['config']
+                answers[o['qi']]['t'] = answers[o['qi']].get('t', 0.0) + o['t']
+    rest = unresolved()
+    if rest and os.environ.get('SMIR_DUMP_UNKNOWN'):
+        os.makedirs(os.environ['SMIR_DUMP_UNKNOWN'], exist_ok=True)
+        for n_, (k, q) in enumerate(rest):
+            with open(os.path.join(os.environ['SMIR_DUMP_UNKNOWN'], 'q%d.json' % n_), 'w') as f:
+                json.dump(q, f)
     solve_s = time.time() - t2
     # ---- thorough: cross-check a sample of query texts with cvc5
     cross = {'checked': 0, 'agree': 0, 'cvc5_unknown': 0, 'disagree': 0}
@@ -520,5 +590,5 @@ def run_check(prop_id, modname, tier, seed, jobs=None, only=None):
                 r['missing_witness'].append(label)
         r['nqueries'] = len(r['queries'])
         del r['queries']
-    info = {'symbolic_s': round(sym_s, 1), 'solve_s': round(solve_s, 1), 'queries': len(allq), 'cross_check': cross}
+    info = {'symbolic_s': round(sym_s, 1), 'solve_s': round(solve_s, 1), 'queries': len(allq), 'portfolio_retries': retried, 'cross_check': cross}
     return results, time.time() - t0, work, info
